@@ -77,6 +77,12 @@ def deep_recursion_family():
                     first = [str(depth)] + (["0"] if p >= 2 else []) + (["77"] if p >= 3 else [])
                     src = "functie f(%s) { %sals n == 0 { antwoord %s } %s } f(%s)" % (", ".join(params), locs, base, expr, ", ".join(first))
                     out.append((src, m * depth + (2 * depth if p >= 2 else 5)))
+    # the innermost activation calls a function that needs no slot at all, at every depth around the limit
+    for per, shape in ((2, "functie f(n) { als n == 0 { antwoord z() } f(n - 1) }"), (3, "functie f(n) { als n == 0 { antwoord z() } 1 + (f(n - 1)) }"),
+                       (2, "functie f(n) { als n == 0 { antwoord [z(), z()][1] } f(n - 1) }")):
+        for depth in range(65536 // per - 4, 65536 // per + 5):
+            src = "functie z() { 3 } %s f(%d)" % (shape, depth)
+            out.append((src, 3 + (depth if per == 3 else 0)))
     return out
 
 
